@@ -211,10 +211,9 @@ class DictIterMixin:
             t = "%s%d" % (default_prefix, c)
         return t
 
-    def bi_sorted(self, node, env):
+    def _sorted_dictview(self, node, env, x):
         if len(node.args) != 1 or node.keywords:
             raise Unsupported("sorted() with key/reverse")
-        x = self.eval(node.args[0], env)
         if isinstance(x, DictView) and x.kind == "keys":
             return self.enum_dict(x, env, self.take_enum_tag("_srt"), sorted_=True)
         raise Unsupported("sorted() of %s" % type(x).__name__)
